@@ -2,6 +2,7 @@
 #include <utility>
 #include <string>
 #include <stdexcept>
+#include <limits>
 
 namespace OP2Utility::Archive
 {
@@ -89,6 +90,12 @@ namespace OP2Utility::Archive
 	void AdaptiveHuffmanTree::UpdateCodeCount(NodeData code)
 	{
 		VerifyNodeDataInBounds(code);
+
+		// The root counts every update. Refuse the update that would wrap its 16 bit counter,
+		// which would break the ordering of the counts the tree relies on.
+		if (subtreeCount[rootNodeIndex] == std::numeric_limits<NodeType>::max()) {
+			throw std::runtime_error("AdaptiveHuffmanTree code count capacity exceeded");
+		}
 
 		// Get the index of the node containing this code
 		NodeIndex curNodeIndex = parentIndex[code + nodeCount];
